@@ -67,6 +67,10 @@ def affix():
             g = form.replace("x", "g")
             out.append(_t(f"{t} g;\nexport function f() -> {t} {{ {t} y = {g}; return y * 10 + g; }}", f"affix global {t} {form}", ["affix", "global"]))
             out.append(_t(f"export function f({t} a, {t} b) -> {t} {{ {t} x = a; return {form} + b; }}", f"affix operand {t} {form}", ["affix"]))
+    # the constant 1 of ++/-- next to literals of the same value and of the other type
+    out.append(_t("export function f(float a) -> float { float s = a; s++; return s * 2.0 + 1.0; }", "affix float next to literal 1.0", ["affix", "float"]))
+    out.append(_t("export function f(float a, int b) -> float { float s = a; --s; b++; return s - 1.0 + b + 1; }", "affix float and int next to literals 1.0 and 1", ["affix", "float"]))
+    out.append(_t("export function f(int a) -> int { int s = a; s++; int[3] arr; arr[1] = s; return arr[1] + 1; }", "affix int next to index 1 and literal 1", ["affix", "array"]))
     for form in ("++i", "i++"):
         out.append(_t(f"export function f(int n) -> int {{ int s = 0; for (int i = 0; i < n; {form}) {{ s += i; }} return s; }}", f"affix for {form}", ["affix", "loop"], NB))
     for form in ("--i", "i--"):
